@@ -333,4 +333,28 @@ def tokenizer_agrees_with_the_svg_grammar(c, family):
                         if [float(x) if x not in 'Ma' else x for x in got] != [float(x) if x not in 'Ma' else x for x in ref]:
                             bad.append((s, got, ref))
         c.ensures('arc-flags-without-separators', not bad)
+        # implicit repetition: the flags of EVERY group of seven arguments need no separator
+        bad2 = []
+        for reps in (2, 3):
+            for flags in itertools.product('01', repeat=2 * reps):
+                for sep in ('', ' '):
+                    for tail in ('2,2', '.5.5', '-1-1'):
+                        groups = ['1,1 0 %s%s%s%s' % (flags[2 * g], sep, flags[2 * g + 1], sep) + tail for g in range(reps)]
+                        s = 'M0,0a' + ' '.join(groups)
+                        ref = _reference_tokens(s)
+                        try:
+                            got = list(path._tokenize_path(s))
+                        except Exception as e:            # the tokenizer must not give up on a legal string
+                            got = ['raised %s' % type(e).__name__]
+                        if ref is None or len(ref) != 4 + 7 * reps:
+                            continue
+                        conv = lambda L: [float(x) if x not in 'Ma' else x for x in L]
+                        try:
+                            same = conv(got) == conv(ref)
+                        except ValueError:
+                            same = False
+                        if not same:
+                            bad2.append((s, got, ref))
+        c.ensures('arc-flags-without-separators-in-every-repeated-group', not bad2)
+        bad = bad + bad2
     c.bad_examples = bad[:3]
